@@ -5,7 +5,8 @@ import PPModel.Mod.PRSpec
   C05 — results names.
 
   The shared parse model (PPModel/Mod/Parse.lean) returns an *annotated token tree*: `Tok.nm name modal asList ts` says
-  "the tokens `ts` were produced by an element carrying results name `name`", `Tok.g ts` is the sub-result of a Group.
+  "the tokens `ts` were produced by an element carrying results name `name`", `Tok.g ts` is the sub-result of a Group,
+  `Tok.hid ts` are tokens deleted from the list whose names stay (FollowedBy, the parts of a Combine).
   This file gives that tree its meaning, twice:
 
   (i)  `resultOf` — the OPERATIONAL reading: replay what the real code does to build the `ParseResults` object, with the
@@ -36,6 +37,11 @@ def single (t : Tok) : NPR := { toks := [t], dict := [], all := [] }
 
 /-! ### (i) the operational reading -/
 
+/-- `del ret[:]` (results.py:239-261 with `i = slice(None)`: every item removed, the positions in the name table fixed
+    up, the name table and `_all_names` kept) — FollowedBy.parseImpl, Combine.postParse -/
+def hide (r : NPR) : NPR :=
+  { r with toks := [], dict := fixDel ((PyList.rangeList 0 r.toks.length 1).reverse) r.dict }
+
 mutual
 /-- the result object contributed by one element of the annotated list -/
 def tokRes : Tok → NPR
@@ -50,6 +56,9 @@ def tokRes : Tok → NPR
   --           item list, WITHOUT the names of this level (nested results are shared, they keep theirs)
   --   207-213 else `self[name] = toklist[0]`; on IndexError (`toklist is self`, empty) nothing is bound
   | .nm n m al ts => reinit Tok.g (resGo emptyPR ts) (some (key n)) al m
+  -- the result of `ts` with its items deleted: the names stay (Combine additionally works on `tokenlist.copy()`, which
+  -- is the same value, results.py:575-587)
+  | .hid ts => hide (resGo emptyPR ts)
 /-- `acc += r₁; acc += r₂; …` (And.parseImpl core.py:4190-4215 `resultlist += exprtokens`, _MultipleMatch 5160
     `tokens += tmptokens`) -/
 def resGo (acc : NPR) : List Tok → NPR
@@ -93,6 +102,7 @@ def tokSizeT : Tok → Nat
   | .n _ => 1
   | .g xs => 1 + tokSizeL xs
   | .nm _ _ _ xs => 1 + tokSizeL xs
+  | .hid xs => 1 + tokSizeL xs
 def tokSizeL : List Tok → Nat
   | [] => 0
   | t :: ts => tokSizeT t + tokSizeL ts
@@ -113,6 +123,7 @@ def toItemF : Nat → Tok → Val
       | .ok (.many vs) => .list (vs.map (toItemF f))
       | .error _ => .bad)))
   | _, .nm _ _ _ _ => .bad      -- never an item: `resultOf` stores items with the annotations stripped
+  | _, .hid _ => .bad
 
 /-- `r.as_dict()` for the result of `ts` (results.py:546-573) -/
 def asDictF (f : Nat) (ts : List Tok) : List (String × Val) :=
@@ -135,6 +146,7 @@ def viewItemF : Nat → Tok → Val
       | .ok (.many vs) => .view (vs.map (viewItemF f)) []     -- `ParseResults([v, …])`: items, no names
       | .error _ => .bad)))
   | _, .nm _ _ _ _ => .bad
+  | _, .hid _ => .bad
 
 /-- enough budget for every nesting level of `ts` -/
 def fuelFor (ts : List Tok) : Nat := tokSizeL ts + 2
@@ -156,6 +168,8 @@ def bindsT : Tok → List Bind
   | .n _ => []
   | .g _ => []
   | .nm n m al ts => bindsL ts ++ [⟨key n, m, al, ts⟩]
+  -- hidden tokens (FollowedBy, the parts of a Combine): gone from the list, their bindings count at this level
+  | .hid ts => bindsL ts
 def bindsL : List Tok → List Bind
   | [] => []
   | t :: ts => bindsT t ++ bindsL ts
@@ -217,6 +231,7 @@ def specItemF : Nat → Tok → Val
       | .ok (.many vs) => .list (vs.map (specItemF f))
       | .error _ => .bad)))
   | _, .nm _ _ _ _ => .bad
+  | _, .hid _ => .bad
 
 def specDictF (f : Nat) (ts : List Tok) : List (String × Val) :=
   (specKeys ts).map (fun k => (k, match specLookup ts k with
@@ -234,5 +249,6 @@ def specViewF : Nat → Tok → Val
       | .ok (.many vs) => .view (vs.map (specViewF f)) []
       | .error _ => .bad)))
   | _, .nm _ _ _ _ => .bad
+  | _, .hid _ => .bad
 
 end PP.Names
